@@ -14,7 +14,7 @@ assert old in s, "pattern not found"
 open(p,'w').write(s.replace(old,new,1))
 PY
 for c in "$@"; do
-  out=$(CMINX_SRC=$d/src CMINX_REPO=$d /verif/bin/check $c --tier quick 2>&1 | tail -1)
+  out=$(VERIF_OUT=$d/_verif_out CMINX_SRC=$d/src CMINX_REPO=$d /verif/bin/check $c --tier quick 2>&1 | tail -1)
   echo "MUTANT $name $c: $out"
 done
 rm -rf $d
